@@ -457,8 +457,22 @@ impl<'a, 'b> Script<'a, 'b> {
                 // valid-looking proposal for the current round by an authority that is not its leader
                 let leader = self.w.leader(cur);
                 let others: Vec<usize> = all_puppets.iter().copied().filter(|x| *x != leader).collect();
+                let decoy = self.side_next(2) == 0;
                 match (others.first(), tip_qc.clone()) {
-                    (Some(a), Some(qc)) if qc.round + 1 == cur => ("proposal-wrong-leader", Some(ConsensusMessage::Propose(self.w.block(*a, cur, qc, None, Vec::new())))),
+                    (Some(a), Some(qc)) if qc.round + 1 == cur => {
+                        // optionally with a valid but stale TC of a round whose successor the author led
+                        let tc = if decoy {
+                            (0..cur.saturating_sub(1)).rev().find(|tr| self.w.leader(tr + 1) == *a).map(|tr| {
+                                let signers = self.w.quorum_subset(&all_puppets).unwrap_or(all_puppets.clone());
+                                let e: Vec<(usize, u64)> = signers.iter().map(|i| (*i, 0)).collect();
+                                self.w.tc(tr, &e)
+                            })
+                        } else {
+                            None
+                        };
+                        let name = if tc.is_some() { "proposal-wrong-leader-with-stale-tc" } else { "proposal-wrong-leader" };
+                        (name, Some(ConsensusMessage::Propose(self.w.block(*a, cur, qc, tc, Vec::new()))))
+                    }
                     _ => ("none", None),
                 }
             }
@@ -1035,16 +1049,27 @@ impl<'a, 'b> Script<'a, 'b> {
             return;
         }
         let qc = self.qc_of(&parent);
-        let tc = if parent_round + 1 == round {
+        let mut tc = if parent_round + 1 == round {
             None
         } else {
             let signers = self.puppet_quorum();
             let e: Vec<(usize, u64)> = signers.iter().map(|i| (*i, parent_round)).collect();
             Some(self.w.tc(round - 1, &e))
         };
+        // decoy: a valid but STALE timeout certificate of an earlier round t whose successor t+1 the
+        // author did lead - a leader check that trusts the attached TC's round would let it pass
+        let mut decoy = None;
+        if tc.is_none() && self.t.chance(1, 2) {
+            if let Some(tr) = (0..round.saturating_sub(1)).rev().find(|tr| self.w.leader(tr + 1) == author) {
+                let signers = self.puppet_quorum();
+                let e: Vec<(usize, u64)> = signers.iter().map(|i| (*i, parent_round.min(tr))).collect();
+                tc = Some(self.w.tc(tr, &e));
+                decoy = Some(tr);
+            }
+        }
         let b = self.w.block(author, round, qc, tc, Vec::new());
         self.register(&b);
-        self.note(json!({"step": "wrong-leader-proposal", "round": round}));
+        self.note(json!({"step": "wrong-leader-proposal", "round": round, "stale_tc_of_round": decoy}));
         self.stat("wrong-leader");
         self.send_to_sut(author, &ConsensusMessage::Propose(b)).await;
     }
